@@ -33,6 +33,14 @@ def resampleIdx (Δ : Int) (idx : List Int) : List Int :=
 def frameIdx (resample : Bool) (Δ : Int) (idx : List Int) : List Int :=
   if resample then resampleIdx Δ idx else idx
 
+/-- index of `frame.resample(Δ).first().dropna(how="all")`: the labels of the bins that hold at least one row -/
+def sparseIdx (Δ : Int) (idx : List Int) : List Int :=
+  (resampleIdx Δ idx).filter (fun ts => idx.any (fun t => decide (ts ≤ t) && decide (t < ts + Δ)))
+
+/-- the index a market's frame has during the run (`Market._resample` is the market's own: most keep every bin, an option book drops the empty ones) -/
+def marketIdx (resample sparse : Bool) (Δ : Int) (idx : List Int) : List Int :=
+  if resample && sparse then sparseIdx Δ idx else frameIdx resample Δ idx
+
 /-- the raw row a lookup at label `ts` returns (`none`: the bin is empty, the row is NaN) -/
 def frameSrc (resample : Bool) (Δ : Int) (idx : List Int) (ts : Int) : Option Int :=
   if resample then idx.find? (fun t => decide (ts ≤ t) && decide (t < ts + Δ))
@@ -44,6 +52,8 @@ structure MarketCfg where
   idx : List Int          -- level 0 of the index of `market.data` as supplied, one entry per row (non-decreasing; strictly increasing
                           -- for a frame with one row per timestamp)
   openCb : Bool           -- `market.open` is set
+  sparse : Bool := false  -- the market's own `_resample` drops the bins without a row (`DeribitOptionMarket._resample`:
+                          -- `.resample(freq).first().dropna(how="all")`): a hole that covers a whole bar stays a hole, the market is closed there
 deriving Repr, Inhabited
 
 structure Cfg where
@@ -153,7 +163,7 @@ def runOps (ts : Int) (h : Hook) : List OpSpec → St → List Ev × St
 
 /-! ### `__set_market_snapshot` -/
 
-def marketOpen (cfg : Cfg) (mc : MarketCfg) (ts : Int) : Bool := (frameIdx cfg.resample cfg.Δ mc.idx).contains ts
+def marketOpen (cfg : Cfg) (mc : MarketCfg) (ts : Int) : Bool := (marketIdx cfg.resample mc.sparse cfg.Δ mc.idx).contains ts
 
 def setEv (cfg : Cfg) (ts : Int) (stage i : Nat) (mc : MarketCfg) : Ev :=
   .set ts i stage (marketOpen cfg mc ts) (if marketOpen cfg mc ts then frameSrc cfg.resample cfg.Δ mc.idx ts else none)
